@@ -139,6 +139,9 @@ def run_pipeline_phase(ctx, exe, n, seed_offset):
             ok = impl in ("panic", "abort")
         else:
             ok = normalise(impl) == normalise(m)
+        if not ok and gen_common.reworded_ok(res[cid], m):
+            hist["reworded_message"] += 1
+            ok = True
         if not ok:
             diffs.append((c, impl, m, tags[cid]))
     return {"evaluations": len(cases), "histogram": dict(hist), "diffs": diffs,
